@@ -165,6 +165,134 @@ def shape(fn) -> str:
     return hashlib.sha256("".join(out).encode()).hexdigest()[:20]
 
 
+_HEADER_SKIP = ("body", "orelse", "finalbody", "handlers")
+
+
+def _own_stmts(fn):
+    """statements (and except handlers) of fn in source order, nested function / class bodies excluded"""
+    out = []
+
+    def rec(lst):
+        for st in lst:
+            out.append(st)
+            if isinstance(st, (ast.FunctionDef, ast.AsyncFunctionDef, ast.ClassDef)):
+                continue
+            for f in ("body", "handlers", "orelse", "finalbody"):
+                sub = getattr(st, f, None)
+                if isinstance(sub, list) and sub and isinstance(sub[0], (ast.stmt, ast.ExceptHandler)):
+                    rec(sub)
+            if isinstance(st, ast.Match) if hasattr(ast, "Match") else False:
+                for c in st.cases:
+                    rec(c.body)
+
+    rec(fn.body)
+    return out
+
+
+class _Occ(dict):
+    """index that abstracts every local to the same placeholder and records the occurrences in dump order"""
+
+    def __init__(self, names):
+        super().__init__((n, 0) for n in names)
+        self.seen: list = []
+
+    def __getitem__(self, k):
+        self.seen.append(k)
+        return 0
+
+
+def stmt_signatures(fn) -> list:
+    """[(digest of the statement header with locals abstracted, [local names in occurrence order])]"""
+    names = local_names(fn)
+    out = []
+    for st in _own_stmts(fn):
+        if isinstance(st, ast.Expr) and isinstance(st.value, ast.Constant) and isinstance(st.value.value, str):
+            continue
+        if isinstance(st, ast.AnnAssign) and st.value is None:
+            continue
+        occ = _Occ(names)
+        buf: list = []
+        if isinstance(st, (ast.FunctionDef, ast.AsyncFunctionDef, ast.ClassDef)):
+            buf.append("<def>")
+        elif any(isinstance(getattr(st, f, None), list) and getattr(st, f) and isinstance(getattr(st, f)[0], (ast.stmt, ast.ExceptHandler)) for f in _HEADER_SKIP) or isinstance(st, ast.ExceptHandler):
+            buf.append(type(st).__name__ + "(")
+            for f in st._fields:
+                if f in _HEADER_SKIP or f in ("type_comment",):
+                    continue
+                v = getattr(st, f, None)
+                if isinstance(st, ast.ExceptHandler) and f == "name" and v in occ:
+                    occ.seen.append(v)
+                    v = "_L0"
+                buf.append(f + "=")
+                _dump(v, occ, buf)
+                buf.append(",")
+            buf.append(")")
+        else:
+            _dump(st, occ, buf)
+        out.append((hashlib.sha256("".join(buf).encode()).hexdigest()[:10], list(occ.seen)))
+    return out
+
+
+def partial_rename(fn, ref_sigs: list, ref_locals: list) -> dict:
+    """Alignment-guided renaming of *new* local names back to reference names.
+
+    The statements of the function and of the reference are aligned by their name-abstracted headers (difflib); in
+    aligned statements the k-th local occurrence of one side is paired with the k-th of the other.  A new name n is
+    renamed to the reference name r when every pairing of n is with r, every pairing of r is with n, and r does not
+    occur anywhere in the function (nested functions included) - a consistent injective renaming to a fresh name,
+    i.e. alpha-equivalence, whatever the alignment was.  Everything else is left as written."""
+    import difflib
+
+    sigs = stmt_signatures(fn)
+    a = [d for d, _ in sigs]
+    b = [d for d, _ in ref_sigs]
+    sm = difflib.SequenceMatcher(a=a, b=b, autojunk=False)
+    fwd: dict = {}
+    bwd: dict = {}
+    for blk in sm.get_matching_blocks():
+        for k in range(blk.size):
+            na, nb = sigs[blk.a + k][1], ref_sigs[blk.b + k][1]
+            if len(na) != len(nb):
+                continue
+            for x, y in zip(na, nb):
+                fwd.setdefault(x, set()).add(y)
+                bwd.setdefault(y, set()).add(x)
+    present = set()
+    nested_binds = set()
+    for n in ast.walk(fn):
+        if isinstance(n, ast.Name):
+            present.add(n.id)
+        elif isinstance(n, ast.arg):
+            present.add(n.arg)
+        elif isinstance(n, ast.ExceptHandler) and n.name:
+            present.add(n.name)
+        elif isinstance(n, (ast.Global, ast.Nonlocal)):
+            present |= set(n.names)
+    for sub in ast.walk(fn):
+        if sub is not fn and isinstance(sub, (ast.FunctionDef, ast.AsyncFunctionDef, ast.Lambda)):
+            for n in ast.walk(sub):
+                if isinstance(n, ast.arg):
+                    nested_binds.add(n.arg)
+                elif isinstance(n, ast.Name) and isinstance(n.ctx, (ast.Store, ast.Del)):
+                    nested_binds.add(n.id)
+                elif isinstance(n, (ast.Global, ast.Nonlocal)):
+                    nested_binds |= set(n.names)
+    mapping = {}
+    locs = set(local_names(fn))
+    for n, rs in fwd.items():
+        if n not in locs or n in ref_locals or len(rs) != 1:
+            continue
+        (r,) = rs
+        if r == n or bwd.get(r) != {n} or r in present or n in nested_binds or r not in ref_locals:
+            continue
+        mapping[n] = r
+    if mapping:
+        ren = _RenameDeep(mapping)
+        for i, st in enumerate(list(fn.body)):
+            fn.body[i] = ren.visit(st)
+    return mapping
+
+
 def _strip_annotations(fn):
     for n in _own_nodes(fn):
         if isinstance(n, ast.AnnAssign) and n.value is not None and isinstance(n.target, ast.Name):
@@ -336,6 +464,15 @@ class _Rename(ast.NodeTransformer):
     visit_AsyncFunctionDef = visit_FunctionDef
 
 
+class _RenameDeep(_Rename):
+    """also inside nested functions / lambdas (closures reading the renamed local)"""
+
+    def visit_FunctionDef(self, n):
+        return self.generic_visit(n)
+
+    visit_AsyncFunctionDef = visit_FunctionDef
+
+
 def _functions(tree):
     """(qualname, node) for every function, nested ones included"""
     out = []
@@ -408,10 +545,28 @@ def normalise_module(modname: str, tree: ast.Module, source: str = "") -> dict:
             return False
 
         if not try_rename():
+            # inlining is kept only if it brings the function back to the reference shape (all or nothing): a partial
+            # normalisation would show the rules a tree that is neither the author's nor the reference's
+            saved = copy.deepcopy(fn.body)
             inl = inline_new_locals(fn, r["locals"])
-            if inl:
+            if inl and shape(fn) == r["shape"]:
                 entry["inlined"] = inl
                 try_rename()
+            elif inl:
+                fn.body[:] = saved
+                entry.pop("renamed", None)
+            if "inlined" not in entry and r.get("stmts"):
+                # neither a pure rename nor a pure hoist: map back the new names that align one-to-one with a
+                # reference name (sound on its own: injective renaming to a name that is fresh in the function)
+                pm = partial_rename(fn, r["stmts"], r["locals"])
+                if pm:
+                    entry["renamed_partial"] = pm
+                    saved = copy.deepcopy(fn.body)
+                    inl = inline_new_locals(fn, r["locals"])
+                    if inl and shape(fn) == r["shape"]:
+                        entry["inlined"] = inl
+                    elif inl:
+                        fn.body[:] = saved
         if entry:
             log[q] = entry
     return log
@@ -423,7 +578,7 @@ def build_reference(modules: dict, sources: dict = None) -> dict:
         d = {}
         lines = (sources or {}).get(name, "").splitlines()
         for q, fn in _functions(tree):
-            d[q] = {"locals": local_names(fn), "shape": shape(fn)}
+            d[q] = {"locals": local_names(fn), "shape": shape(fn), "stmts": [[dg, ns] for dg, ns in stmt_signatures(fn)]}
             if lines:
                 d[q]["text"] = text_digest(lines, fn)
         out[name] = d
